@@ -34,7 +34,7 @@ SIG_TL = 'c08-traceless-basis-nontraceless-oper'        # fixed by 2891db3 (clas
 SIG_PC = 'c08-pc-nontraceless-oper'                     # fixed by 2891db3 when control_matrix_pc is cached
 SIG_PC_UNCACHED = 'c08-pc-uncached-control-matrix-nontraceless-oper'
 
-HEADER = ("From Coq Require Import ZArith List.\n"
+HEADER = ("From Coq Require Import ZArith List String.\n"
           "From FF Require Import Base.Ops Inst.Param Model.Consts Model.Numeric Model.Decay Model.Cumulant "
           "Corr.Agree Corr.Obs Corr.ObsC08.\n"
           "Import ListNotations.\n")
@@ -297,9 +297,13 @@ def coq_case_total(name, c, out, big):
            f"  let idx := {nat_list(idx)} in\n"
            f"  let G := decay_amplitudes O {cbool(opt[0])} {cbool(opt[1])} {na} {nk} {no} Bm Bm idx sp om in\n"
            f"  let I := infidelity_total O {p.d} {na} {nk} {no} Bm bs idx sp om in\n")
-    body = (f"  tadd (tally_eig O {p.d} {emit.tol_lit(1e-11 * hscale, big)} Hs Vs ev)\n"
+    all_ids = '[' + ';'.join('"%s"' % x for x in p.n_oper_identifiers) + ']%string'
+    sel_ids = 'None' if c['ids'] is None else '(Some [' + ';'.join('"%s"' % x for x in c['ids']) + ']%string)'
+    impl_idx = ff.util.get_indices_from_identifiers(p.n_oper_identifiers, c['ids'])
+    body = (f"  tadd (idx_check {all_ids} {sel_ids} {nat_list(impl_idx)})\n"
+            f"  (tadd (tally_eig O {p.d} {emit.tol_lit(1e-11 * hscale, big)} Hs Vs ev)\n"
             f"  (tadd (tallyR O {emit.tol_lit(REL_TOL * sG, big)} {rvec_lit(G.reshape(-1))}%Z (flat3 G))\n"
-            f"        (tallyR O {emit.tol_lit(REL_TOL * sI, big)} {rvec_lit(infid.reshape(-1))}%Z I))")
+            f"        (tallyR O {emit.tol_lit(REL_TOL * sI, big)} {rvec_lit(infid.reshape(-1))}%Z I)))")
     if K is not None:
         sK = max(np.abs(K).max(), sG, 1e-300)
         shortcut = bool(p.d == 2 and p.basis.btype in ('Pauli', 'GGM') and p.basis.shape == (4, 2, 2) and p.basis == ff.Basis.pauli(1))
